@@ -211,3 +211,5 @@ PROP = Prop(
                  "near-ties (unequal scores < 16 ulps apart) are outside the property's tie / "
                  "tie-free dichotomy and are skipped, counted under label near-tie-skipped"],
 )
+
+RULE_EXTRA = ('score containers float64 / float32 / lists / mixed-dtype classes; fine score scale 1e-6.')
